@@ -113,6 +113,7 @@ type ctx struct {
 	chMap *vh.Channel
 	find  *vh.Oracle
 	uni   *vh.Oracle
+	e2e   *vh.Oracle
 	seenV map[string]bool
 	n     int
 }
@@ -451,7 +452,8 @@ func (c *ctx) caseFind(value []byte, cs, partial bool, maxTokenSize int, extra [
 	// one long-lived indexer per configuration, as the pooled processors have
 	ik := idxKey{cs, partial, maxTokenSize}
 	if indexers[ik] == nil {
-		indexers[ik] = bulk.NewVerifIndexer(findMapping, maxTokenSize, cs, partial)
+		// through the real NewIngestor wiring: config (MaxTokenSize, CaseSensitive, PartialFieldIndexing) -> tokenizer set
+		indexers[ik] = bulk.NewVerifIndexerFromIngestor(findMapping, maxTokenSize, cs, partial)
 	}
 	metas, err := indexers[ik].Index(doc)
 	key := replay
@@ -756,6 +758,10 @@ func (c *ctx) runUnicode() {
 }
 
 func main() {
+	if len(os.Args) > 2 && os.Args[1] == "e2e-child" {
+		e2eChild(os.Args[2])
+		return
+	}
 	o := vh.ParseFlags()
 	logger.SetLevel(zap.FatalLevel)
 	rep := vh.NewReport("C11", o)
@@ -764,6 +770,7 @@ func main() {
 	c.chIdx = vh.NewChannel("index", "indexer.Index on whole documents (long-lived indexers, several non-string JSON values per document, multi-type fields in every order, object flattening) vs SV.Tok.indexField per field with Main/All taken from the real mapping: the full (name, value) token list in order; non-trivial = two or more non-string values or invalid UTF-8")
 	c.chMap = vh.NewChannel("mapping", "seq.ReadMapping on a multi-type field (every ordering of untitled / titled entries over the tokenizer types, duplicates, missing main) vs SV.Tok.convertTypes: Main and All; non-trivial = the untitled entry is not the first")
 	c.find = vh.NewOracle("findable", "document indexed by the real bulk indexer; every promised unit (keyword value, word of a text value, leading path, field existence; also in an object and for a multi-type field) written back into a query in 6 quoting styles, parsed by the real parsers under the same case setting: the literal's term must be byte-equal to an indexed token; non-trivial = value with non-ASCII, upper case or invalid bytes")
+	c.e2e = vh.NewOracle("findable.e2e", "real ingestor + store (tests/setup.TestingEnv, child process), keyword and path fields with size 512, values of 72..513 bytes (several sharing their first 72 bytes): every whole value and every leading path is searched in the active fraction, after sealing, and after the caches were reset (token table loaded from disk); the documents returned must be exactly those holding it; non-trivial = query longer than 80 bytes")
 	c.uni = vh.NewOracle("unicode", "laws assumed by the theorems, checked for all 1,114,112 code points: ToLower idempotent and equal to To(LowerCase) and to strings.ToLower per rune; on ASCII the isTextToken table equals IsLetter||IsNumber||_||*, toLowerMap equals ToLower, IsDigit equals IsNumber")
 	if o.Replay != "" {
 		lines, err := vh.ReadReplay(o.Replay)
@@ -786,6 +793,8 @@ func main() {
 					extra = strings.Split(string(e), "\x00")
 				}
 				c.caseFind(v, f[1] == "1", f[2] == "1", mts, extra, "replay")
+			case len(f) == 1 && f[0] == "e2e":
+				c.runE2E()
 			case len(f) == 2 && f[0] == "mmapq":
 				if b, err := hex.DecodeString(f[1]); err == nil {
 					c.caseMapping(string(b))
@@ -798,11 +807,13 @@ func main() {
 		c.runTok(rng.Fork())
 		c.runMapping()
 		c.runFind(rng.Fork())
+		c.runE2E()
 	}
 	rep.AddChannel(c.ch, o.Driver)
 	rep.AddChannel(c.chIdx, o.Driver)
 	rep.AddChannel(c.chMap, o.Driver)
 	rep.AddOracle(c.find)
 	rep.AddOracle(c.uni)
+	rep.AddOracle(c.e2e)
 	rep.Write(o.Out)
 }
